@@ -149,7 +149,7 @@ class World:
         self.speed = [1.0] * nranks
         if self.strategy == 'priority':
             for i, r in enumerate(perm):
-                self.speed[r] = 100.0 ** i
+                self.speed[r] = 100.0 ** (i - (nranks - 1))      # slowest rank has speed 1, each faster one 100x
         elif self.strategy == 'straggler':
             self.speed[perm[0]] = 100.0
         # clock model (what the code *sees*; never influences scheduling)
